@@ -105,12 +105,14 @@ def hasReservedEntries : List (R × R) → Bool
   | (k, v) :: r => hasReserved k || hasReserved v || hasReservedEntries r
 end
 
-/-- yaml.v3 writes a multi-line string as a literal block scalar and loses its first character when
-that is a line break, a tab, U+2028 or U+2029; it writes the key `<<` unquoted (a merge key) -/
+/-- yaml.v3 writes a multi-line string as a literal block scalar and miswrites it (the first character is
+lost, or the text cannot be read back) when it starts with a line break, a tab, a space, U+2028 or U+2029;
+it writes the key `<<` unquoted (a merge key).  Class confirmed exhaustively on all strings of length ≤ 4 over
+a 14-letter alphabet in six nesting contexts. -/
 def fragileStr (cs : Key) : Bool :=
   (cs.contains 10 &&
     (match cs with
-     | c :: _ => c = 10 || c = 9 || c = 0x2028 || c = 0x2029
+     | c :: _ => c = 10 || c = 9 || c = 32 || c = 0x2028 || c = 0x2029
      | [] => false)) || cs = [60, 60]
 
 mutual
@@ -595,6 +597,7 @@ def corpus : List Case :=
         "error" (R.tuple [(kS, s "2020-01-01")]).den.canon with stratum := "yaml/timestamp" },
     docCase "C13-corpus-32" yamlC (.obj [([10], .str [10, 97])]) 2 false false,
     docCase "C13-corpus-33" yamlC (.obj [([60, 60], .num 1)]) 2 false false,
+    docCase "C13-corpus-39" yamlC (.obj [([107], .arr [.str [32, 97, 10, 99], .arr []])]) 2 false false,
     -- documents
     docCase "C13-corpus-28" jsonC (.obj [([97], .num 1), ([97], .num 2)]) 0 false false,
     docCase "C13-corpus-29" jsonC (.str [0x1F600, 34, 92, 0, 0x2028]) 2 true false,
